@@ -18,12 +18,14 @@ Print Assumptions md_result.
 
 (* One level-1 heading (the network), one level-2 heading per bus followed by the three
    appendices, one level-3 heading per node interface, one level-4 heading per message (then
-   one per listed enum), all in the order of the tree. *)
+   one per listed enum), all in the order of the tree.  [esc_heading] is the name on one line (a line
+   break in a name is written as a blank, headingText in md_exporter.go). *)
 Theorem md_sections : forall n,
-  headings 1 (blocks n) = [nt_name n]
-  /\ headings 2 (blocks n) = map b_name (nt_buses n) ++ appendix_titles
-  /\ headings 3 (blocks n) = map n_name (flat_map b_nifs (nt_buses n))
-  /\ headings 4 (blocks n) = map m_name (msgs_of_net n) ++ map se_name (enums_listed n).
+  headings 1 (blocks n) = [esc_heading (nt_name n)]
+  /\ headings 2 (blocks n) = map (fun b => esc_heading (b_name b)) (nt_buses n) ++ appendix_titles
+  /\ headings 3 (blocks n) = map (fun x => esc_heading (n_name x)) (flat_map b_nifs (nt_buses n))
+  /\ headings 4 (blocks n) = map (fun m => esc_heading (m_name m)) (msgs_of_net n)
+                             ++ map (fun e => esc_heading (se_name e)) (enums_listed n).
 Proof. exact md_sections_lemma. Qed.
 Print Assumptions md_sections.
 
@@ -66,7 +68,7 @@ Theorem md_appendix_exact : forall n, well_formed n ->
        mk_table type_header (map type_row (types_listed n))
        :: mk_table unit_header (map unit_row (units_listed n))
        :: map (fun e => mk_table value_header (map value_row (se_values e))) (enums_listed n)
-  /\ headings 4 (appendix_blocks n) = map se_name (enums_listed n)
+  /\ headings 4 (appendix_blocks n) = map (fun e => esc_heading (se_name e)) (enums_listed n)
   /\ lists_exactly st_id (types_listed n) (all_types n)
   /\ lists_exactly su_id (units_listed n) (all_units n)
   /\ lists_exactly se_id (enums_listed n) (all_enums n).
